@@ -197,7 +197,7 @@ def generate(rng: random.Random, batch: dict) -> dict:
                 clock["jumps"] = {
                     str(rng.randint(1, 40 if not heavy else 900)):
                     rng.choice([1, 5]) * 3_600_000_000_000
-                    for _ in range(1 if not heavy else 6)}
+                    for _ in range(1 if not heavy else 24)}
         actions = []
         if faults and not heavy and not claimed and rng.random() < 0.3:
             actions.append({"a": "peer_claims", "frac": rng.choice(
@@ -285,9 +285,9 @@ def directed(tier: str) -> list:
                                "instgen:beng01:0.125"],
                  "budget": 12, "boots": [
         {"hashseed": "31", "clock": {"mode": "fixed", "tick": 1000,
-                                     "jumps": {"60": 3_600_000_000_000,
-                                               "200": 3_600_000_000_000,
-                                               "450": 18_000_000_000_000}},
+                                     # a node that stalls again and again
+                                     "jumps": {str(q): 3_600_000_000_000
+                                               for q in range(30, 1000, 17)}},
          "shuffle_seed": 6, "crash": None,
          "actions": [{"a": "run", "n_runs": [4], "warmup": False,
                       "pre_warmup": False}]}]})
